@@ -30,12 +30,10 @@ Section Interp.
     match fuel with
     | O => throw XFuel
     | S f =>
-        t <- get_ts ;;
-        match cleanups t with
-        | [] => ret last
-        | (id, c) :: rest =>
-            _ <- upd_cleanup (fun t => mkT (failed t) rest (ctx t) true) ;;
-            _ <- emit_u (URun id) ;;
+        c <- pop_cleanup ;;
+        match c with
+        | None => ret last
+        | Some c =>
             try_ (crun c) (fun r =>
               match r with
               | Err XFuel => throw XFuel
@@ -48,15 +46,11 @@ Section Interp.
         end
     end.
   Definition cleanup : M (option exn) :=
-    t <- get_ts ;;
-    _ <- (if ctx t then emit_u UCtxCancel else ret tt) ;;
-    _ <- upd_cleanup (fun t => mkT (failed t) (cleanups t) false true) ;;
+    _ <- begin_cleanup ;;
     r <- cleanup_loop LF None ;;
-    _ <- upd_cleanup (fun t => mkT (failed t) (cleanups t) (ctx t) false) ;;
+    _ <- end_cleanup ;;
     ret r.
 
-  (* ---- customGen.maybeValue: fresh inner T on the same stream; only invalidData is swallowed;
-     the inner T's cleanup runs last; non-fatal failures are forwarded to the parent T ---- *)
   (* what happens when the Custom function itself ends: the harness sees it return or panic; a value returned
      after a non-fatal failure fails the test case at once (failOnError in maybeValue) *)
   Definition custom_end (r : result val) : M val :=
@@ -201,24 +195,17 @@ Section Interp.
         _ <- note_draw v ;;
         run_p (k v)
     | PFail kind id m k =>
-        _ <- emit_u (USignal kind m id) ;;
+        _ <- signal kind m id ;;
         match kind with
-        | KError => _ <- set_failed m ;; run_p k
-        | KFatal => _ <- set_failed m ;; throw (XStop m (SUser id))
+        | KError => run_p k
+        | KFatal => throw (XStop m (SUser id))
         | KPanic => throw (XPanic m (SUser id))
         end
     | PSkip m => _ <- emit_u (USkip m) ;; throw (XInvalid m)
     | PCleanup id f k =>
-        _ <- upd_reg (fun t => mkT (failed t) ((id, f) :: cleanups t) (ctx t) (cleaning t)) ;;
-        _ <- emit_u (UReg id) ;;
+        _ <- register id f ;;
         run_p k
-    | PContext k =>
-        t <- get_ts ;;
-        if ctx t then _ <- emit_u (UCtxSeen true) ;; run_p (k true)
-        else if cleaning t then _ <- emit_u (UCtxSeen false) ;; run_p (k false)
-        else _ <- emit_u UCtxNew ;; _ <- emit_u (UCtxSeen true) ;;
-             _ <- upd_reg (fun t => mkT (failed t) (cleanups t) true (cleaning t)) ;;
-             run_p (k true)
+    | PContext k => b <- context_call ;; run_p (k b)
     | PFailed k =>
         t <- get_ts ;;
         let b := match failed t with Some _ => true | None => false end in
